@@ -576,45 +576,55 @@ def digest(features, seed=1, nrandom=4000, transcript_ops=None):
 
 # ---------------------------------------------------------------- bounded Kani harnesses (get_node_id)
 
-KANI_HARNESSES = ["get_node_id_roundtrip_fresh", "get_node_id_roundtrip_recycled"]
+# (harness, debug assertions on?) per tier; the full recycled harness takes ~10 min of CBMC time in a debug build
+KANI_HARNESSES = {
+    "quick": [("gni_fresh", True), ("gni_small_recycled", False)],
+    "thorough": [("gni_fresh", True), ("gni_small_recycled", True), ("gni_full_recycled", True)],
+}
 
 
-def kani_check():
-    """builds the harness crate against the working tree and runs every harness; cached"""
+def kani_check(tier="quick"):
+    """builds the harness crate against the working tree and runs the harnesses of the tier; cached"""
     lib = open(os.path.join(VERIF, "tools", "kani", "lib.rs")).read()
-    key = sha(repo_src_hash() + lib)
+    key = sha(repo_src_hash() + lib + tier)
     cpath = os.path.join(BUILD, "cache", "kani-" + key + ".json")
     os.makedirs(os.path.dirname(cpath), exist_ok=True)
     if os.path.exists(cpath):
         return json.load(open(cpath))
-    scratch = tempfile.mkdtemp(prefix="vx.", dir="/var/tmp")
-    try:
-        open(os.path.join(scratch, "Cargo.toml"), "w").write(
-            open(os.path.join(VERIF, "tools", "kani", "Cargo.toml.tmpl")).read().replace("@REPO@", REPO))
-        os.makedirs(os.path.join(scratch, "src"))
-        open(os.path.join(scratch, "src", "lib.rs"), "w").write(lib)
-        lock = os.path.join(REPO, "Cargo.lock")
-        if os.path.exists(lock):
-            shutil.copy(lock, os.path.join(scratch, "Cargo.lock"))
-        out = {"harnesses": [], "wall_s": 0.0}
-        t0 = time.time()
-        for h in KANI_HARNESSES:
-            p = sh(["cargo", "kani", "--harness", h], cwd=scratch, check=False, timeout=1800)
-            txt = p.stdout + p.stderr
-            ok = "VERIFICATION:- SUCCESSFUL" in txt
-            m = re.search(r"\*\* (\d+) of (\d+) failed", txt)
-            # a verdict needs at least one failed check that is a property of the code: a solver that was killed
-            # (out of memory, timeout) or an unwinding assertion (bound too small for the changed code) is not one
-            failed_desc = re.findall(r"Failed Checks: (.*)", txt)
-            real = [d for d in failed_desc if "unwinding assertion" not in d and "recursion unwinding" not in d]
-            failed = ("VERIFICATION:- FAILED" in txt and m is not None and int(m.group(1)) >= 1 and bool(real)
-                      and "CBMC failed" not in txt and "CBMC timed out" not in txt)
-            out["harnesses"].append({"name": h, "status": "ok" if ok else ("failed" if failed else "error"),
-                                     "checks": int(m.group(2)) if m else 0, "failed_checks": int(m.group(1)) if m else None,
-                                     "tail": txt[-2500:] if not ok else ""})
-        out["wall_s"] = round(time.time() - t0, 1)
-        if all(h["status"] in ("ok", "failed") for h in out["harnesses"]):  # (a killed or timed-out run is not remembered)
-            json.dump(out, open(cpath, "w"))
-        return out
-    finally:
-        shutil.rmtree(scratch, ignore_errors=True)
+    out = {"harnesses": [], "wall_s": 0.0, "tier": tier}
+    t0 = time.time()
+    for debug in (True, False):
+        hs = [h for h, d in KANI_HARNESSES[tier] if d == debug]
+        if not hs:
+            continue
+        scratch = tempfile.mkdtemp(prefix="vx.", dir="/var/tmp")
+        try:
+            toml = open(os.path.join(VERIF, "tools", "kani", "Cargo.toml.tmpl")).read().replace("@REPO@", REPO)
+            if not debug:
+                toml = toml.replace("[workspace]", "[profile.dev]\ndebug-assertions = false\noverflow-checks = true\n\n[workspace]")
+            open(os.path.join(scratch, "Cargo.toml"), "w").write(toml)
+            os.makedirs(os.path.join(scratch, "src"))
+            open(os.path.join(scratch, "src", "lib.rs"), "w").write(lib)
+            lock = os.path.join(REPO, "Cargo.lock")
+            if os.path.exists(lock):
+                shutil.copy(lock, os.path.join(scratch, "Cargo.lock"))
+            for h in hs:
+                p = sh(["cargo", "kani", "--harness", h], cwd=scratch, check=False, timeout=2400)
+                txt = p.stdout + p.stderr
+                ok = "VERIFICATION:- SUCCESSFUL" in txt and "VERIFICATION:- FAILED" not in txt
+                m = re.search(r"\*\* (\d+) of (\d+) failed", txt)
+                # a verdict needs at least one failed check that is a property of the code: a solver that was killed
+                # (out of memory, timeout) or an unwinding assertion (bound too small for the changed code) is not one
+                failed_desc = re.findall(r"Failed Checks: (.*)", txt)
+                real = [d for d in failed_desc if "unwinding assertion" not in d and "recursion unwinding" not in d]
+                failed = ("VERIFICATION:- FAILED" in txt and m is not None and int(m.group(1)) >= 1 and bool(real)
+                          and "CBMC failed" not in txt and "CBMC timed out" not in txt)
+                out["harnesses"].append({"name": h, "debug_assertions": debug, "status": "ok" if ok else ("failed" if failed else "error"),
+                                         "checks": int(m.group(2)) if m else 0, "failed_checks": int(m.group(1)) if m else None,
+                                         "tail": txt[-2500:] if not ok else ""})
+        finally:
+            shutil.rmtree(scratch, ignore_errors=True)
+    out["wall_s"] = round(time.time() - t0, 1)
+    if all(h["status"] in ("ok", "failed") for h in out["harnesses"]):  # (a killed or timed-out run is not remembered)
+        json.dump(out, open(cpath, "w"))
+    return out
